@@ -461,13 +461,6 @@ Definition judge (p : str) (sfx : option str) (rules : list rule) (expires : lis
            else v_ok in
   (v, mkW now sc' store' (cobs_disk o) forbidden').
 
-Definition at_request (v : sx) (i : nat) : sx :=
-  match v with
-  | L [a; b] => L [a; b; A []; of_nat i]
-  | L [a; b; c] => L [a; b; c; of_nat i]
-  | _ => v
-  end.
-
 Fixpoint walk (p : str) (sfx : option str) (rules : list rule) (expires : list (str * Z)) (w : wst) (ops : list sx) (obs : list sx) (i : nat) : sx :=
   match ops with
   | [] => v_ok
